@@ -242,6 +242,58 @@ def encode_value(name, w):
     return out
 
 
+def retyped_inputs(name, thorough=False):
+    """the octets of well-formed instances of every OTHER message of the family, sent under the message type of `name`: the
+    minimal instance as it is, and with every content octet set to an optional-element identifier of `name` (so that the
+    decoder `name` routes to meets its own identifiers inside what another layout calls contents - and an identifier
+    followed by an impossible length makes it fail where the sibling layout succeeds); the repository's samples likewise.
+    Routing follows the type octet alone: one body, the one the type names, or an error."""
+    t = TBL[name]; pos = 2 if t["family"] == "GMM" else 3
+    fills = [s_["iei"] for s_ in t["slots"] if not s_["mand"] and not s_["half"]]
+    fills = fills if thorough else fills[:4]
+    out = []
+    for o in TABLES:
+        if o["family"] != t["family"] or o["name"] == name: continue
+        base = plain_minimal(o["name"])
+        out.append(base[:pos] + [t["msgtype"]] + base[pos + 1:])
+        nh = len(header(o["name"]))
+        mslots = [q for q in o["slots"] if q["mand"]]
+        for fv in fills:
+            mv = minimal_value(o["name"])
+            for k, (val, ts) in enumerate(zip(mv["mand"], mslots)):
+                if k >= nh: val["v"] = [fv] * len(val["v"])
+            b = encode_value(o["name"], mv)
+            out.append(b[:pos] + [t["msgtype"]] + b[pos + 1:])
+            # ... and with a longer variable-length mandatory element (room for an identifier, a length and contents)
+            grew = False
+            for k, (val, ts) in enumerate(zip(mv["mand"], mslots)):
+                if k >= nh and ts["lsz"] > 0 and ts["data"] == "buf" and ts["max"] >= val["len"] + 6:
+                    val["len"] += 6; val["v"] = [fv] * val["len"]; grew = True
+            if grew:
+                b = encode_value(o["name"], mv)
+                out.append(b[:pos] + [t["msgtype"]] + b[pos + 1:])
+    return out
+
+
+def enveloped_inputs(inner):
+    """`inner` (a well-formed plain message) behind a few octets that look like a framing header - a one- or two-octet length
+    of what follows (exact and off by one or two), alone or behind a foreign discriminator, once and twice: routing looks at
+    the FIRST octet, anything that is not 0x7E / 0x2E there is an error, whatever lies further inside"""
+    out = []
+    n0 = len(inner)
+    for k in (-2, -1, 0, 1, 2):
+        n = n0 + k
+        if n < 0: continue
+        pres = [[n >> 8, n & 255], [n & 255], [0, n >> 8, n & 255]] + [[d, n & 255] for d in (0x01, 0x0F, 0x7F, 0xFF)]
+        for pre in pres:
+            out.append(pre + inner)
+        if k == 0:
+            one = [n >> 8, n & 255] + inner
+            m = len(one)
+            out.append([m >> 8, m & 255] + one); out.append([0x01, m & 255] + one)
+    return out
+
+
 def container_slots(name):
     """names of the elements of a message that carry another message or an arbitrary octet string of up to 64 KiB"""
     return [s["name"] for s in TBL[name]["slots"] if s["lsz"] == 2 and s["data"] == "buf" and s["max"] >= 65535
@@ -414,6 +466,43 @@ def dup_variants(base, singles):
         if len(es) >= 2 and len(es[0]) != len(es[-1]):
             out.append(base + es[-1] + es[0]); out.append(base + es[0] + es[-1])
             if len(es) >= 3: out.append(base + es[len(es) // 2] + es[0])
+    return out
+
+
+def salted(msg, e, salt):
+    """the optional element e (octet list: identifier, length field, contents) with contents of its own: octet i of the
+    contents := (salt + i * step) mod 256, identifier and length untouched.  TLC fills contents by position in the input,
+    so two single elements of one message carry the same leading octets; an element that reads or overwrites a sibling's
+    storage only shows when the siblings differ."""
+    sl = next((s_ for s_ in TBL[msg]["slots"] if not s_["mand"] and (e[0] if e[0] < 128 else e[0] // 16) == s_["iei"]), None)
+    if sl is None or sl["half"]: return list(e)
+    off = 1 + sl["lsz"]
+    return list(e[:off]) + [(salt + i * (1 + salt % 5)) % 256 for i in range(len(e) - off)]
+
+
+def canonical_pairs(msg, base, singles, rng=None, per_pair=1):
+    """every pair of different optional elements of the message in DEFINITION order (a canonical input), each with contents
+    of its own; plus the complete optional set in definition order, salted.  `singles`: single optional elements as octet
+    lists (from depth-1 paths); per element the shortest with at least two content octets is preferred."""
+    order = [s_ for s_ in TBL[msg]["slots"] if not s_["mand"]]
+    byslot = {}
+    for e in singles:
+        for k, s_ in enumerate(order):
+            if (e[0] if e[0] < 128 else e[0] // 16) == s_["iei"]:
+                byslot.setdefault(k, []).append(e); break
+    out = []
+    def choose(k, r):
+        es = sorted(byslot[k], key=len)
+        good = [e for e in es if len(e) - 1 - order[k]["lsz"] >= 2] or es
+        return good[min(r, len(good) - 1)] if rng is None else (good[0] if r == 0 else rng.choice(good))
+    ks = sorted(byslot)
+    for r in range(per_pair):
+        for a in range(len(ks)):
+            for b in range(a + 1, len(ks)):
+                i, j = ks[a], ks[b]
+                out.append(base + salted(msg, choose(i, r), 0x81 + 3 * i + r) + salted(msg, choose(j, r), 0x42 + 5 * j + 2 * r))
+        if len(ks) >= 3:
+            out.append(base + [x for k in ks for x in salted(msg, choose(k, r), 0x31 + 7 * k + r)])
     return out
 
 
